@@ -111,6 +111,9 @@ func (x *otrans) lvalue(e ast.Expr, en oenv) (olval, string) {
 
 // assignTo: `lhs = val` / `lhs := val`; aliasOf = the path val may be a second reference to (call results)
 func (x *otrans) assignTo(lhs ast.Expr, define bool, val oval, aliasOf *olval, en oenv) (string, oenv) {
+	if val.view && !isIdent(lhs, "_") {
+		fail("%s would share the backing array of the slice it is a re-slice of (aliasing); copy it (slices.Clone)", norm(src(lhs)))
+	}
 	switch l := lhs.(type) {
 	case *ast.ParenExpr:
 		return x.assignTo(l.X, define, val, aliasOf, en)
@@ -1007,6 +1010,9 @@ func (x *otrans) retCore(en oenv, rs []ast.Expr, fc *ofctx) string {
 	var parts []string
 	for i, r := range rs {
 		v0 := x.expr(r, en, res[i])
+		if v0.view {
+			fail("return of the re-slice %s (it shares a backing array)", norm(src(r)))
+		}
 		if v0.typ != "nil" && v0.typ != "untyped" && x.u.isObjKind(x.ti(v0.typ).Kind) {
 			if k := x.rootOf(v0, en); k >= 0 && x.shape.aliasRes[i] != k {
 				if x.shape.aliasRes[i] >= 0 {
